@@ -27,7 +27,10 @@ META = {
             "exe_if_contains_per_hit, exe_pure_no_change, consume_all_each_once and consume_ledger. The model is tied to the code by exact "
             "replay on one rank and by a search for an explaining sequential order per contended key on multi-rank runs under simmpi.",
     "note": "Trusted: Lean kernel + propext/Classical.choice/Quot.sound; the hand-written model SetOps.lean tied to set_impl.hpp on the explored "
-            "histories only; exactly-once atomic execution on the owner (C01/C02/C08) is an assumption; async_exe_if_contains tests count == 1 "
+            "histories only; exactly-once atomic execution on the owner (C01/C02/C08) is an assumption; set / multiset are also "
+            "instantiated with a non-default Compare (std::greater, a custom total order) and a non-default Partitioner, with ascending and "
+            "descending key sweeps - the model is unchanged for them (the comparator only orders the local store, membership semantics are "
+            "the same); async_exe_if_contains tests count == 1 "
             "(modelled as such; equal to membership under the set invariant); the order in which consume_all hands out elements is not part of "
             "the property and is not compared; callbacks are a fixed table mirrored in Driver/MapSet.lean.",
 }
@@ -41,8 +44,8 @@ class SetFlavour(E.MapFlavour):
     mode = "set"
     pid = "C12"
 
-    def __init__(self, what, kinds):
-        self.what, self.kinds = what, kinds
+    def __init__(self, what, kinds, variant="d"):
+        self.what, self.kinds, self.variant = what, kinds, variant
         self.multi = what == "multiset"
         self.kk, self.vk = kinds[0], kinds[0]
 
@@ -73,6 +76,11 @@ class SetFlavour(E.MapFlavour):
         if r < 86:
             return ["eim", K, str(rnd.choice([0, 2])), a]
         return ["eic", K, str(rnd.choice([0, 2])), a]
+
+    def sweep_op(self, rnd, k):
+        if self.multi:
+            return ["insm", qt(k)]
+        return rnd.choice([["ins", qt(k)], ["ieim", qt(k), "0", qt(self.rand_val(rnd))], ["ieic", qt(k), "0", qt(self.rand_val(rnd))]])
 
     def post_clear_op(self, rnd, k):
         if self.multi:
@@ -233,7 +241,7 @@ class SetFlavour(E.MapFlavour):
                     "SetOps.count == count()", f"model {o} real {answers[0]}", block=bi, directive=d))
 
 
-FLAVOURS = [SetFlavour(w, k) for w in ("set", "multiset") for k in ("s", "i")]
+FLAVOURS = [SetFlavour(w, k, v) for v in ("d", "g", "p") for w in ("set", "multiset") for k in ("s", "i")]
 ASSUME = ["every operation is executed exactly once, atomically, on owner(key) before the barrier returns (C01/C02/C08; Dist.Complete)",
           "std::hash is a parameter (owners are read from the real run); the order of elements inside std::multiset is not compared",
           "runs aborted by the messaging layer (comm.ipp assertion, deadlock) are C03's subject and are skipped here, counted in the distribution"]
@@ -241,8 +249,8 @@ ASSUME = ["every operation is executed exactly once, atomically, on owner(key) b
 
 def run(tier, seed, model_ok=True):
     # a set's quiet workloads are cheap: more cases per flavour than C11
-    return E.run_flavours(FLAVOURS + FLAVOURS[:2], tier, seed + 1000, model_ok, RULE, ASSUME, race_env="C12_POST_CLEAR_NOBARRIER")
+    return E.run_flavours(FLAVOURS + [f for f in FLAVOURS if f.what == "set"], tier, seed + 1000, model_ok, RULE, ASSUME, race_env="C12_POST_CLEAR_NOBARRIER")
 
 
 def replay(data):
-    return E.replay_with(lambda w, k: SetFlavour(w, k), data)
+    return E.replay_with(lambda w, k, v: SetFlavour(w, k, v), data)
